@@ -56,8 +56,8 @@ def stmt_failure(ref, L, t, centre, w, noise=None):
     peaks = ref @ L + t
     sc = max(1.0, np.abs(peaks).max(), np.abs(ref).max())
     try:
-        fit = grm.get_transformation(ref, peaks, center=centre, weighs=w)
-        back = grm.do_transformation(fit, ref, center=centre)
+        fit = core.call_guarded(grm.get_transformation, ref, peaks, center=centre, weighs=w)
+        back = core.call_guarded(grm.do_transformation, fit, ref, center=centre)
     except Exception as e:  # noqa
         return 'raised %s: %s' % (type(e).__name__, e)
     if np.abs(back - peaks).max() > 1e-8 * sc:
@@ -103,7 +103,7 @@ def stmt_failure(ref, L, t, centre, w, noise=None):
     M[2, 0:2] = t
     M[2, 2] = 1
     try:
-        c = grm.find_center(M)
+        c = core.call_guarded(grm.find_center, M)
     except Exception as e:  # noqa
         return 'find_center raised %s' % type(e).__name__
     if not np.isfinite(c).all():
